@@ -342,6 +342,14 @@ def run_check(pid: str, tier: str, base_seed: int, jobs: int) -> int:
         if kf is not None:
             known_hit.append({"id": kf.get("id"), "signature": sig, "count": total["per_sig"].get(sig, 0)})
             lines.append(f"KNOWN-FINDING: property={pid} {kf.get('id')}: {kf.get('what')} [sig={sig}; hit {total['per_sig'].get(sig, 0)}x]")
+            if os.environ.get("VERIF_KEEP_KNOWN"):
+                # materialise a minimised replay of the recorded finding under /verif/findings (manual, never in a registered check)
+                small = shrink(mod, rec["scenario"], sig)
+                o2 = exec_scn(mod, small)
+                os.makedirs(os.path.join(VERIF, "findings"), exist_ok=True)
+                with open(os.path.join(VERIF, "findings", f"{kf.get('id')}.json"), "w") as f:
+                    json.dump({"property": pid, "finding": kf.get("id"), "violation": next(x for x in o2["violations"] if x["sig"] == sig),
+                               "digest": o2["digest"], "scenario": small, "history": o2["history"]}, f, indent=1, sort_keys=True, default=repr)
             continue
         scn = rec["scenario"]
         if time.time() < shrink_deadline:
